@@ -7,6 +7,15 @@ IR (JSON): ["skip"] | ["bind", x, src] | ["write", x] | ["ret", x] | ["seq", [s.
 A parameter and everything reachable from it (elements, attributes, dict values, views) is ONE
 region.  The translation over-approximates: whatever it cannot classify becomes `unknown` plus a
 write to every argument.  Calls to other pewlib functions/methods are inlined.
+
+Besides the regions, a value may carry a TAG, a flow-sensitive fact about its library type (kept with the
+`arr` facts, intersected at joins): ElementTree objects, executors / futures, instances of a pewlib
+class (from constructors and trusted annotations).  Tags only select which method table applies to a
+receiver (ElementTree's pure accessors, `submit`, the class hierarchy's own methods); an untagged
+receiver is dispatched by name as before, and a method outside every table stays an unknown call.
+Function values: lambdas and functions handed to sorted/min/max/map/filter/list.sort are applied to the
+items in a loop; names that can only hold pewlib functions are called as a branch over them; any
+other function-valued parameter or variable is an unknown call.
 """
 from __future__ import annotations
 
@@ -39,9 +48,13 @@ ValueError TypeError KeyError IndexError IOError OSError RuntimeError NotImpleme
 UserWarning DeprecationWarning Exception AssertionError FileNotFoundError ZeroDivisionError
 Path pathlib.Path time.time time.strptime time.mktime calendar.timegm logging.getLogger math.sqrt math.exp math.log
 math.floor math.ceil math.isnan math.gamma math.erf math.pi version importlib.metadata.version copy.deepcopy
-logger.warning logger.info logger.debug logger.error warnings.warn re.compile re.match re.search re.findall
-struct.pack struct.unpack sys.byteorder
+logger.warning logger.info logger.debug logger.error logger.exception warnings.warn re.compile re.match re.search
+re.findall struct.pack struct.unpack sys.byteorder
+int.from_bytes np.take_along_axis np.trapezoid np.trapz np.logical_or.reduce np.logical_and.reduce np.argpartition
+np.nanargmax np.nanargmin np.uint16 np.int8 np.int16
 """.split())
+# int.from_bytes builds an int from a bytes object; take_along_axis gathers by fancy indexing (a new array);
+# trapezoid / ufunc.reduce / argpartition / nanarg* return new arrays or scalars (an `out=` keyword is a write, see `call`)
 
 # callables whose result may be a VIEW / shares elements with (some of) its arguments; write nothing
 VIEW_FUNCS = set("""
@@ -81,14 +94,55 @@ decode isdigit isalpha title capitalize zfill partition rpartition splitlines ca
 bit_length is_integer as_integer_ratio total_seconds hex
 exists is_dir is_file with_suffix with_name joinpath resolve open read_text read_bytes glob iterdir mkdir stat
 read readline readlines close flush tell
-group groups start end span
+group groups start end span match search fullmatch
 """.split())
+# `match search fullmatch`: compiled-pattern methods; pure, the match object keeps only the (immutable) searched string
 # NOTE: `.copy()` is assumed to be ndarray.copy (a deep, fresh copy); the dynamic snapshot run checks this
 
 # methods (by name) returning a view / an element of the receiver
 VIEW_METHODS = set("""reshape ravel view transpose swapaxes squeeze diagonal take get items keys values
 __getitem__ real imag T flat
 """.split())
+
+# external constructors / parsers whose result is a FRESH object of a known library type (the tag selects the
+# method rules below; nothing of the argument is written: parsing only reads its path / file argument)
+TAGGED_FRESH_FUNCS = {
+    "xml.etree.ElementTree.parse": "xml", "xml.etree.ElementTree.fromstring": "xml", "xml.etree.ElementTree.XML": "xml",
+    "concurrent.futures.ProcessPoolExecutor": "exec", "concurrent.futures.ThreadPoolExecutor": "exec",
+}
+# value tags:  xml  = an ElementTree / Element (or a part of one: child, attrib dict, text)
+#              xmlc = a builtin container / iterator of such (findall, iter, list(...), sorted(...)) or one of its items
+#              exec = a concurrent.futures executor;  fut = a future of `submit` (or a container of futures)
+LOADED_TAG = {"xml": "xml", "xmlc": "xmlc", "fut": "fut"}
+CONTAINER_TAG = {"xml": "xmlc", "xmlc": "xmlc", "fut": "fut"}
+#              ("cls", key) = an instance of the pewlib class `key` or of a subclass (constructed here, or a parameter /
+#              inlined result annotated with that class): its methods and properties are that hierarchy's
+#              ("list", t) = a builtin container whose items have tag t (annotation `list[C]`, or built here from such items)
+
+
+def loaded_tag(tag):
+    if isinstance(tag, tuple):
+        return tag[1] if tag[0] == "list" else None
+    return LOADED_TAG.get(tag)
+
+
+def container_tag(tag):
+    if isinstance(tag, tuple):
+        return ("list", tag)
+    return CONTAINER_TAG.get(tag)
+# Element / ElementTree methods: all pure.  `find getroot` return a part of the receiver, `findall iter iterfind` a new
+# list / iterator of parts, `findtext itertext` text (str) or the default, `get keys items` attribute strings or the default
+XML_PART = {"find", "getroot"}
+XML_PARTS = {"findall", "iter", "iterfind"}
+XML_TEXT = {"findtext", "itertext"}
+XML_ATTR = {"get", "keys", "items"}
+XML_ANNOTATIONS = {"ElementTree.Element", "ElementTree.ElementTree", "Element", "ET.Element", "ET.ElementTree",
+                   "xml.etree.ElementTree.Element", "xml.etree.ElementTree.ElementTree"}
+
+# builtin higher-order callables: the function argument is applied to the ELEMENTS of the other arguments
+HOF_KEY = {"sorted", "min", "max"}   # key=<function>; its results are only compared
+HOF_FIRST = {"map", "filter"}        # first positional argument; map's results are the new elements
+PURE_TYPES = {"str", "int", "float", "bytes", "bool", "complex"}  # `str.isdigit`, `int`, ... passed as functions
 
 JUMPS = (ast.Continue, ast.Break)
 
@@ -98,16 +152,29 @@ class Val:
     own:   IR variables whose object the value may BE (or be a view/part of)
     reach: IR variables whose object the value may hold references to (elements, attributes)
     Writing through the value touches `own`; loading from it yields own+reach."""
-    __slots__ = ("own", "reach", "unknown", "arr")
+    __slots__ = ("own", "reach", "unknown", "arr", "tag")
 
-    def __init__(self, own=(), reach=(), unknown=False, arr=False):
+    def __init__(self, own=(), reach=(), unknown=False, arr=False, tag=None):
         self.own = frozenset(own)
         self.reach = frozenset(reach)
         self.unknown = unknown
         self.arr = arr  # known to be a plain ndarray / scalar / str (holds no references)
+        self.tag = None if arr else tag  # library type of the value (see TAGS), None = not known
+
+    def neutral(self):
+        """a constant / None / new empty container: joins with anything without changing what that is"""
+        return not self.own and not self.reach and not self.unknown and self.tag is None
 
     def __or__(self, o):
-        return Val(self.own | o.own, self.reach | o.reach, self.unknown or o.unknown, self.arr and o.arr)
+        if self.tag == o.tag or o.neutral():
+            tag = self.tag
+        elif self.neutral():
+            tag = o.tag
+        elif {self.tag, o.tag} <= {"xml", "xmlc"}:
+            tag = "xmlc"
+        else:
+            tag = None
+        return Val(self.own | o.own, self.reach | o.reach, self.unknown or o.unknown, self.arr and o.arr, tag)
 
     def all(self):
         return self.own | self.reach
@@ -116,11 +183,14 @@ class Val:
         """an element / attribute / view of this value"""
         if self.arr:
             return Val(self.own, (), self.unknown, True)
-        return Val(self.own | self.reach, self.reach, self.unknown, False)
+        return Val(self.own | self.reach, self.reach, self.unknown, False, loaded_tag(self.tag))
 
     def container(self):
         """a NEW container holding references to this value"""
-        return Val((), self.own | self.reach, self.unknown, False)
+        return Val((), self.own | self.reach, self.unknown, False, container_tag(self.tag))
+
+    def untagged(self):
+        return Val(self.own, self.reach, self.unknown, self.arr)
 
 
 FRESH = Val(arr=True)
@@ -135,7 +205,9 @@ class Program:
         self.funcs = {}     # (module, name) -> FunctionDef
         self.classes = {}   # (module, name) -> ClassDef
         self.imports = {}   # module -> {local name: ("mod", dotted) | ("obj", module, name)}
+        self.consts = {}    # (module, name) -> True for module-level names only ever bound to a dict/list/tuple/set/constant literal
         self._fields = {}
+        self._ftypes = {}
         for m in modules:
             self.load(m)
 
@@ -178,6 +250,16 @@ class Program:
                     else:
                         imp[a.asname or a.name] = ("obj", base, a.name)
         self.imports[mod] = imp
+        literal = (ast.Dict, ast.List, ast.Tuple, ast.Set, ast.Constant)
+        bad = {n for node in ast.walk(tree) if isinstance(node, (ast.Global, ast.Nonlocal)) for n in node.names}
+        for node in tree.body:
+            tgts = node.targets if isinstance(node, ast.Assign) else [node.target] if isinstance(node, (ast.AnnAssign, ast.AugAssign)) else []
+            for t in tgts:
+                for n in ast.walk(t):
+                    if isinstance(n, ast.Name):
+                        ok = isinstance(node, (ast.Assign, ast.AnnAssign)) and isinstance(t, ast.Name) \
+                            and isinstance(node.value, literal) and n.id not in bad
+                        self.consts[(mod, n.id)] = ok and self.consts.get((mod, n.id), True)
         for kind, *rest in list(imp.values()):
             target = rest[0]
             if target.startswith("pewlib"):
@@ -258,6 +340,59 @@ class Program:
         self._fields[cls_key] = sorted(fields) if ok else None
         return self._fields[cls_key]
 
+    def subclasses(self, cls_key):
+        """cls_key and every loaded class that has it in its MRO"""
+        return [k for k in self.classes if cls_key in self.mro(k)]
+
+    def overrides(self, cls_key, name):
+        """the method `name` as found from cls_key, plus the overriding definitions of its subclasses: what
+        `obj.name` may be for an object that is an instance of cls_key (or of a subclass)"""
+        out = []
+        for k in [cls_key] + [k for k in self.subclasses(cls_key) if k != cls_key]:
+            m = self.find_method(k, name)
+            if m and m not in out:
+                out.append(m)
+        return out
+
+    def field_type(self, cls_key, field):
+        """class of `self.<field>` when the ONLY assignment to an attribute of that name in the whole program is
+        `self.<field> = <parameter>` in an `__init__` of the hierarchy, the parameter being annotated with a pewlib
+        class (annotations are trusted, as for arrays and containers); else None"""
+        k0 = (cls_key, field)
+        if k0 in self._ftypes:
+            return self._ftypes[k0]
+        legit, found, ok = set(), None, True
+        for k in self.mro(cls_key):
+            init = next((n for n in self.classes[k].body if isinstance(n, ast.FunctionDef) and n.name == "__init__"), None)
+            if init is None or not init.args.args:
+                continue
+            rebound = {n.id for n in ast.walk(init) if isinstance(n, ast.Name) and isinstance(n.ctx, (ast.Store, ast.Del))}
+            for node in ast.walk(init):
+                if not (isinstance(node, ast.Assign) and len(node.targets) == 1 and isinstance(node.value, ast.Name)):
+                    continue
+                t, v = node.targets[0], node.value
+                if not (isinstance(t, ast.Attribute) and t.attr == field and isinstance(t.value, ast.Name)
+                        and t.value.id == init.args.args[0].arg and v.id not in rebound):
+                    continue
+                ann = next((x.annotation for x in init.args.args + init.args.kwonlyargs if x.arg == v.id), None)
+                if isinstance(ann, ast.Constant) and isinstance(ann.value, str) and ann.value.isidentifier():
+                    ann = ast.Name(id=ann.value)
+                r = self.resolve_name(k[0], ann) if isinstance(ann, ast.Name) else None
+                if r and r[0] == "class" and found in (None, r[1]):
+                    found = r[1]
+                    legit.add(id(t))
+        for tree in self.mods.values():  # any other store to an attribute of that name, anywhere: no typing
+            for node in ast.walk(tree):
+                if isinstance(node, ast.Attribute) and node.attr == field and isinstance(node.ctx, (ast.Store, ast.Del)) \
+                        and id(node) not in legit:
+                    ok = False
+                if isinstance(node, ast.Name) and node.id in ("setattr", "delattr", "__dict__"):
+                    ok = False
+                if isinstance(node, ast.Attribute) and node.attr in ("__dict__", "__setattr__"):
+                    ok = False
+        self._ftypes[k0] = found if ok else None
+        return self._ftypes[k0]
+
     def methods_named(self, name):
         out = []
         for k, cls in self.classes.items():
@@ -294,8 +429,9 @@ class Translator:
         self.nvars = 0
         self.diag = []  # unknown calls etc.
         self.fields = {}  # (self own-var, attr) -> (own var, reach var)
-        self.arr = set()
+        self.arr = set()    # facts: v (own-var v holds a plain array / scalar), ("tag", v, t) (its value has library type t)
         self.cont = set()
+        self.lambda_vals = {}
 
     def init_fields(self, out, cls_key, selfpair, fresh):
         """field-sensitive view of `self` (only for classes whose methods never let `self` escape)"""
@@ -327,8 +463,10 @@ class Translator:
         self.fields = {}
         self.arr = set()
         self.cont = set()
+        self.lambda_vals = {}
         params = self.param_names(fn)
         scope = Scope(self, mod, cls_key, top=True)
+        scope.funcvals = self.func_locals(mod, fn)
         rebinds = {n.id for n in ast.walk(fn) if isinstance(n, ast.Name) and isinstance(n.ctx, (ast.Store, ast.Del))}
         scope.stable = {n for n, _ in params} - rebinds
         out = []
@@ -351,6 +489,10 @@ class Translator:
                 scope.arr.add(vo)
             if ann is not None and is_container_annotation(ann):
                 scope.cont.add(vo)
+            if ann is not None and is_xml_annotation(ann):
+                scope.set_tag(vo, "xml")
+            if annotation_tag(self.prog, mod, ann) and not (i == 0 and cls_key is not None):
+                scope.set_tag(vo, annotation_tag(self.prog, mod, ann))
             pnames.append(name)
             idx += 1
         scope.block(fn.body, out, stack=[(mod, fn.name)])
@@ -359,6 +501,39 @@ class Translator:
             out.append(["ret", so])
             out.append(["ret", sr])
         return idx, pnames, ["seq", out]
+
+    def func_locals(self, mod, fn):
+        """local names that are only ever bound by `name = <pewlib function>`: name -> set of function keys.
+        A call through such a name is one of those functions (translated as a branch over them)."""
+        params = {n for n, _ in self.param_names(fn)}
+        vals, plain = {}, set()
+        for node in ast.walk(fn):
+            if isinstance(node, ast.Assign) and len(node.targets) == 1 and isinstance(node.targets[0], ast.Name):
+                vals.setdefault(node.targets[0].id, []).append(node.value)
+                plain.add(id(node.targets[0]))
+            elif isinstance(node, ast.AnnAssign) and isinstance(node.target, ast.Name):
+                if node.value is not None:
+                    vals.setdefault(node.target.id, []).append(node.value)
+                plain.add(id(node.target))
+        stored = {n.id for n in ast.walk(fn) if isinstance(n, ast.Name) and isinstance(n.ctx, (ast.Store, ast.Del))}
+        other = {n.id for n in ast.walk(fn) if isinstance(n, ast.Name) and isinstance(n.ctx, (ast.Store, ast.Del))
+                 and id(n) not in plain}
+        other |= {n for node in ast.walk(fn) if isinstance(node, (ast.Global, ast.Nonlocal)) for n in node.names}
+        other |= {n.name for n in ast.walk(fn) if isinstance(n, (ast.FunctionDef, ast.ClassDef)) and n is not fn}
+        out = {}
+        for name, vs in vals.items():
+            if name in params or name in other:
+                continue
+            keys = set()
+            for v in vs:
+                r = self.prog.resolve_name(mod, v) if isinstance(v, ast.Name) and v.id not in stored | params else None
+                if not (r and r[0] == "func"):
+                    keys = None
+                    break
+                keys.add(r[1])
+            if keys:
+                out[name] = frozenset(keys)
+        return out
 
     @staticmethod
     def param_names(fn):
@@ -379,6 +554,29 @@ def is_container_annotation(ann: str) -> bool:
                for x in parts)
 
 
+def annotation_tag(prog: Program, mod: str, ann) -> tuple | None:
+    """`C` / `C | None` / "C" naming exactly one pewlib class -> ("cls", key);  `list[C]` -> ("list", ("cls", key))"""
+    if ann is None:
+        return None
+    text = (ann if isinstance(ann, str) else ast.unparse(ann)).strip().strip("'\"")
+    names = [x.strip() for x in text.split("|") if x.strip() != "None"] if "[" not in text else [text]
+    if len(names) != 1:
+        return None
+    name = names[0]
+    if name.startswith("list[") and name.endswith("]"):
+        inner = annotation_tag(prog, mod, name[5:-1])
+        return ("list", inner) if inner else None
+    if not name.isidentifier():
+        return None
+    r = prog.resolve_name(mod, ast.Name(id=name))
+    return ("cls", r[1]) if r and r[0] == "class" else None
+
+
+def is_xml_annotation(ann: str) -> bool:
+    parts = [x.strip().strip("'\"") for x in ann.split("|")]
+    return all(x in XML_ANNOTATIONS or x == "None" for x in parts) and any(x in XML_ANNOTATIONS for x in parts)
+
+
 def is_array_annotation(ann: str) -> bool:
     """annotations of values that hold no references: ndarray, scalars, str, Path (optionally `| None`)"""
     parts = [x.strip() for x in ann.split("|")]
@@ -396,6 +594,7 @@ class Scope:
         self.selfvar = None   # own-var of `self`
         self.def_cls = cls_key
         self.localfuncs = {}
+        self.funcvals = {}    # name -> frozenset of pewlib function keys the name certainly holds one of
         self.known = {}       # outcome of stable tests on the current path (path splitting)
         self.stable = set()   # parameter names never rebound in this function
 
@@ -412,6 +611,19 @@ class Scope:
     def cont(self):
         return self.tr.cont
 
+    def tag_of(self, v):
+        for f in self.tr.arr:
+            if type(f) is tuple and f[1] == v:
+                return f[2]
+        return None
+
+    def set_tag(self, v, tag):
+        old = self.tag_of(v)
+        if old is not None:
+            self.tr.arr.discard(("tag", v, old))
+        if tag is not None:
+            self.tr.arr.add(("tag", v, tag))
+
     def var(self, name):
         if name not in self.vars:
             self.vars[name] = (self.tr.new(), self.tr.new())
@@ -419,8 +631,14 @@ class Scope:
 
     def pair_of(self, node):
         """the variable pair of a plain local name (for by-reference parameter passing)"""
+        if isinstance(node, ast.Name) and node.id in self.funcvals:
+            return ("fn", self.funcvals[node.id])  # a pewlib function passed on by name
         if isinstance(node, ast.Name) and node.id in self.vars:
             return self.vars[node.id]
+        if isinstance(node, ast.Name) and node.id not in self.localfuncs:
+            r = self.tr.prog.resolve_name(self.mod, node)
+            if r and r[0] == "func":
+                return ("fn", frozenset([r[1]]))
         return None
 
     def bind1(self, out, v, vars_, unknown):
@@ -448,6 +666,7 @@ class Scope:
             self.arr.add(vo)
         else:
             self.arr.discard(vo)
+        self.set_tag(vo, None if arr else val.tag)
 
     def tmp(self, out, val: Val):
         pair = (self.tr.new(), self.tr.new())
@@ -475,7 +694,7 @@ class Scope:
         vo, vr = self.vars[name]
         if vo in self.arr:
             return Val([vo], (), False, True)
-        return Val([vo], [vr], False, False)
+        return Val([vo], [vr], False, False, self.tag_of(vo))
 
     # ------------------------------------------------------------------ statements
     def stable_test(self, t):
@@ -683,7 +902,7 @@ class Scope:
             if isinstance(e, ast.JoinedStr):
                 for v in e.values:
                     if isinstance(v, ast.FormattedValue):
-                        self.expr(v.value, out, stack)
+                        self.stringify(self.expr(v.value, out, stack), out, stack)
             return FRESH
         if isinstance(e, ast.Name):
             if e.id in self.vars:
@@ -738,6 +957,9 @@ class Scope:
                 return FRESH
             base = self.expr(e.value, out, stack)
             self.expr(e.slice, out, stack)
+            if isinstance(e.slice, ast.Slice) and isinstance(base.tag, tuple) and base.tag[0] == "list":
+                v = base.loaded()
+                return Val(v.own, v.reach, v.unknown, False, base.tag)  # a slice of a list is a list of the same items
             return base.loaded()
         if isinstance(e, ast.Attribute):
             d = dotted(e)
@@ -746,16 +968,26 @@ class Scope:
             base = self.expr(e.value, out, stack)
             if e.attr in ("shape", "ndim", "size", "dtype", "names", "itemsize", "nbytes", "name", "suffix", "stem", "parent"):
                 return FRESH
+            if base.tag in ("xml", "xmlc") and e.attr in ("tag", "text", "tail"):
+                return FRESH  # str (or None), like findtext
             val = base.loaded()
             if isinstance(e.value, ast.Name) and len(base.own) == 1:
                 fp = self.tr.fields.get((next(iter(base.own)), e.attr))
                 if fp is not None:
-                    val = Val([fp[0]], () if fp[0] in self.arr else [fp[1]], False, fp[0] in self.arr)
+                    val = Val([fp[0]], () if fp[0] in self.arr else [fp[1]], False, fp[0] in self.arr, self.tag_of(fp[0]))
             cands = []
-            if self.selfvar is not None and base.own == {self.selfvar} and self.cls_key:
-                m = self.tr.prog.find_method(self.cls_key, e.attr)
-                if m and "property" in decorators(m[1]):
-                    cands = [m]
+            ftype = None
+            if isinstance(e.value, ast.Attribute) and isinstance(e.value.value, ast.Name) and self.selfvar is not None \
+                    and self.cls_key and e.value.value.id in self.vars and self.vars[e.value.value.id][0] == self.selfvar:
+                ftype = self.tr.prog.field_type(self.cls_key, e.value.attr)  # `self.<field>.<attr>` with a typed field
+            if isinstance(base.tag, tuple) and base.tag[0] == "cls" and not (self.selfvar is not None and base.own == {self.selfvar}):
+                ftype = base.tag[1]
+            if base.tag in ("xml", "xmlc", "exec", "fut"):
+                cands = []  # library objects: `tag text attrib tail` are plain attributes
+            elif self.selfvar is not None and base.own == {self.selfvar} and self.cls_key:
+                cands = [m for m in self.tr.prog.overrides(self.cls_key, e.attr) if "property" in decorators(m[1])]
+            elif ftype is not None:
+                cands = [m for m in self.tr.prog.overrides(ftype, e.attr) if "property" in decorators(m[1])]
             else:
                 cands = [(k, fn) for k, fn in self.tr.prog.methods_named(e.attr) if "property" in decorators(fn)]
             for key, fn in cands:
@@ -764,7 +996,10 @@ class Scope:
         if isinstance(e, (ast.ListComp, ast.SetComp, ast.GeneratorExp, ast.DictComp)):
             return self.comprehension(e, out, stack)
         if isinstance(e, ast.Lambda):
-            return FRESH
+            if id(e) in self.tr.lambda_vals:  # argument of a builtin higher-order call: applied there (see `apply_fn`)
+                return self.tr.lambda_vals[id(e)]
+            # anywhere else: whoever gets the function object may call it, any number of times, with anything
+            return self.in_loop(out, lambda body: self.lambda_body(e, Val(unknown=True), body, stack))
         if isinstance(e, ast.NamedExpr):
             val = self.expr(e.value, out, stack)
             self.assign(e.target, val, out, stack)
@@ -797,10 +1032,120 @@ class Scope:
             val = self.expr(e.elt, body, stack)
         self.bind1(body, acc_r, val.all() | {acc_r}, val.unknown)
         out.append(["loop", ["seq", body]])
-        return Val([acc_o], [acc_r], False, False)
+        return Val([acc_o], [acc_r], False, False, container_tag(val.tag))
+
+    # ------------------------------------------------------------------ function values
+    def in_loop(self, out, make):
+        """`make(body) -> Val` translated as the body of a loop (run any number of times), with the two passes over the
+        `arr`/tag facts that `for` statements use"""
+        arr0 = set(self.arr)
+        for final in (False, True):
+            diag = list(self.tr.diag)
+            body = []
+            val = make(body)
+            self.arr = arr0 & self.arr
+            arr0 = set(self.arr)
+            if not final:
+                self.tr.diag = diag
+        out.append(["loop", ["seq", body]])
+        return val
+
+    def lambda_body(self, lam: ast.Lambda, argval: Val, body, stack) -> Val:
+        """the lambda's expression with every parameter bound to `argval`; the value is a function object that
+        reaches whatever the expression may return (free variables are the enclosing scope's, read now)"""
+        saved = {}
+        a = lam.args
+        for x in a.posonlyargs + a.args + a.kwonlyargs + [y for y in (a.vararg, a.kwarg) if y]:
+            saved[x.arg] = self.vars.get(x.arg)
+            self.vars[x.arg] = self.tmp(body, argval)
+        for dflt in list(a.defaults) + [k for k in a.kw_defaults if k is not None]:
+            self.expr(dflt, body, stack)
+        ret = self.expr(lam.body, body, stack)
+        for name, old in saved.items():
+            if old is None:
+                del self.vars[name]
+            else:
+                self.vars[name] = old
+        return Val((), ret.all(), ret.unknown, False)
+
+    def pure_function_value(self, node) -> bool:
+        """`str.isdigit`, `int`, `len`, ...: builtins passed as functions; they write nothing and return new values"""
+        d = dotted(node)
+        if d is None or d.split(".")[0] in self.vars or d.split(".")[0] in self.localfuncs:
+            return False
+        if self.tr.prog.resolve_name(self.mod, ast.Name(id=d.split(".")[0])) is not None:
+            return False
+        parts = d.split(".")
+        return (len(parts) == 2 and parts[0] in PURE_TYPES) or (len(parts) == 1 and (d in PURE_TYPES or d in ("len", "abs", "repr")))
+
+    def apply_fn(self, fnode, elem_nodes, out, stack) -> Val:
+        """a builtin higher-order callable applies `fnode` to elements: translated as calls in a loop; returns what
+        the applications may return"""
+        if self.pure_function_value(fnode):
+            return FRESH
+
+        def make(body):
+            if isinstance(fnode, ast.Lambda):
+                elems = Val(arr=True)
+                for n in elem_nodes:
+                    elems = elems | self.expr(n, body, stack)
+                v = self.lambda_body(fnode, elems, body, stack)
+                self.tr.lambda_vals[id(fnode)] = v
+                return Val(v.reach, v.reach, v.unknown, False)
+            res = Val(arr=True)
+            for n in elem_nodes:
+                syn = ast.copy_location(ast.Call(func=fnode, args=[n], keywords=[]), fnode)
+                res = res | self.call(syn, body, stack)
+            return res
+        return self.in_loop(out, make)
+
+    def higher_order(self, e: ast.Call, out, stack):
+        """(result of the applications | None, names of keywords that do not flow into the result)"""
+        f = e.func
+
+        def elem(n):
+            n = n.value if isinstance(n, ast.Starred) else n
+            return ast.copy_location(ast.Subscript(value=n, slice=ast.Constant(0), ctx=ast.Load()), n)
+        builtin = isinstance(f, ast.Name) and f.id not in self.vars and f.id not in self.localfuncs \
+            and self.tr.prog.resolve_name(self.mod, f) is None
+        key = next((k.value for k in e.keywords if k.arg == "key"), None)
+        if builtin and f.id in HOF_KEY and key is not None:
+            pos = [a.value if isinstance(a, ast.Starred) else a for a in e.args]
+            nodes = [elem(a) for a in e.args] + (pos if len(pos) > 1 else [])  # min(a, b, key=f): the arguments themselves
+            self.apply_fn(key, nodes, out, stack)
+            return None, {"key"}
+        if isinstance(f, ast.Attribute) and f.attr == "sort" and key is not None:
+            self.apply_fn(key, [elem(f.value)], out, stack)
+            return None, {"key"}
+        if builtin and f.id in HOF_FIRST and len(e.args) >= 2 and not isinstance(e.args[0], ast.Starred):
+            res = self.apply_fn(e.args[0], [elem(a) for a in e.args[1:]], out, stack)
+            return (res if f.id == "map" else None), set()
+        return None, set()
+
+    def call_one_of(self, keys, args, kwargs, out, stack, pairs) -> Val:
+        """a call through a name that holds one of the pewlib functions `keys`: a branch over inlining each"""
+        res = self.tmp(out, Val())
+        arr0, arrs, alts, is_arr = set(self.arr), [], [], True
+        for key in sorted(keys):
+            self.arr = set(arr0)
+            b = []
+            v = self.inline(key[0], self.tr.prog.funcs[key], args, kwargs, b, stack, pairs=pairs)
+            self.bind1(b, res[0], v.own, v.unknown)
+            self.bind1(b, res[1], v.reach, v.unknown)
+            is_arr = is_arr and self.is_arr(v)
+            arrs.append(self.arr)
+            alts.append(["seq", b])
+        self.arr = set.intersection(*arrs)
+        node = alts[-1]
+        for alt in reversed(alts[:-1]):
+            node = ["branch", alt, node]
+        out.append(node)
+        return Val([res[0]], () if is_arr else [res[1]], False, is_arr)
 
     # ------------------------------------------------------------------ calls
     def call(self, e: ast.Call, out, stack) -> Val:
+        self._stack = stack
+        hof_res, no_flow = self.higher_order(e, out, stack)
         args = []
         star_from = None
         for i, a in enumerate(e.args):
@@ -823,8 +1168,10 @@ class Scope:
             AP[1].pop("**", None)
         allargs = args + list(kwargs.values())
         union = Val(arr=True)
-        for a in allargs:
+        for a in args + [v for k, v in kwargs.items() if k not in no_flow]:
             union = union | a
+        if hof_res is not None:
+            union = hof_res  # map(f, xs): the elements of the result are what f returns, nothing else
         f = e.func
         if "out" in kwargs:  # `out=` style keyword: the named array is written
             self.write(out, kwargs["out"])
@@ -833,6 +1180,8 @@ class Scope:
         if isinstance(f, ast.Name) and f.id in self.localfuncs:
             return self.inline(self.mod, self.localfuncs[f.id], args, kwargs, out, stack, cls_key=self.cls_key,
                                def_cls=self.def_cls, closure=self, pairs=AP)
+        if isinstance(f, ast.Name) and f.id in self.funcvals:
+            return self.call_one_of(self.funcvals[f.id], args, kwargs, out, stack, AP)
         if isinstance(f, ast.Name) and f.id == "cls" and self.cls_key:
             return self.construct(self.cls_key, args, kwargs, out, stack, pairs=AP)
         if isinstance(f, ast.Name) and f.id not in self.vars:
@@ -861,7 +1210,16 @@ class Scope:
                     return self.static_method((mod, parts[0]), parts[1], args, kwargs, out, stack, union, e, pairs=AP)
             if r and r[0] == "class" and len(d.split(".")) == 2:
                 return self.static_method(r[1], d.split(".")[1], args, kwargs, out, stack, union, e, pairs=AP)
+            parts = d.split(".")
+            if r is None and len(parts) == 2 and self.tr.prog.consts.get((self.mod, head)) and head not in self.localfuncs:
+                # a builtin method of a module-level literal (dict / list / tuple / str constant), e.g. `TABLE.items()`
+                if parts[1] in FRESH_METHODS:
+                    return FRESH
+                if parts[1] in VIEW_METHODS:
+                    return Val(union.own, union.reach, union.unknown, False)  # constants, or a default that was passed
             full = d
+            if r and r[0] == "ext":
+                full = r[1] + d[len(head):]  # `from xml.etree import ElementTree` -> xml.etree.ElementTree.parse
             if r and r[0] == "mod":
                 full = r[1] + d[len(head):]
                 if r[1] == "numpy":
@@ -885,16 +1243,41 @@ class Scope:
             name = f.attr
             res = Val(arr=True)
             handled = False
+            if recv.tag in ("xml", "xmlc") and (name in XML_PART | XML_PARTS | XML_TEXT or (recv.tag == "xml" and name in XML_ATTR)):
+                part = recv.loaded()
+                if name in XML_PART:
+                    return Val(part.own, part.reach, part.unknown, False, "xml")
+                if name in XML_PARTS:
+                    return Val((), part.own | part.reach, part.unknown, False, "xmlc")
+                dflt = args[1] if len(args) > 1 else kwargs.get("default", FRESH)
+                return dflt.untagged() | FRESH  # text / attribute strings, or the default
+            if recv.tag == "exec" and name == "submit" and e.args and not isinstance(e.args[0], ast.Starred):
+                # the executor calls args[0](*args[1:], **kwargs) (now or later, on the same objects)
+                syn = ast.copy_location(ast.Call(func=e.args[0], args=list(e.args[1:]), keywords=list(e.keywords)), e)
+                v = self.call(syn, out, stack)
+                return Val((), v.all(), v.unknown, False, "fut")
+            if recv.tag == "fut" and name in ("result", "exception", "done", "cancel", "cancelled", "running"):
+                return recv.loaded().untagged()
             on_self = self.selfvar is not None and recv.own == {self.selfvar} and self.cls_key
             cands = []
             if on_self:
-                m = self.tr.prog.find_method(self.cls_key, name)
-                if m:
-                    cands = [m]
+                cands = self.tr.prog.overrides(self.cls_key, name)
             if not cands:
                 cands = [(k, fn) for k, fn in self.tr.prog.methods_named(name) if "property" not in decorators(fn)]
             builtin = name in INPLACE_METHODS or name in FRESH_METHODS or name in VIEW_METHODS
             is_cont = bool(recv.own) and all(v in self.cont for v in recv.own) and isinstance(f.value, ast.Name)
+            if isinstance(recv.tag, tuple) and recv.tag[0] == "cls" and not on_self:
+                typed = self.tr.prog.overrides(recv.tag[1], name)
+                if typed:  # a method of the receiver's class hierarchy: exactly these, whatever the name
+                    for key, fn in typed:
+                        decs = decorators(fn)
+                        a1, p1 = (args, AP) if "staticmethod" in decs else \
+                            ([FRESH if "classmethod" in decs else recv] + args,
+                             ([None if "classmethod" in decs else self.pair_of(f.value)] + AP[0], AP[1]))
+                        res = res | self.inline(key[0], fn, a1, kwargs, out, stack, cls_key=key, def_cls=key, pairs=p1)
+                    return res
+            elif recv.tag is not None and not isinstance(recv.tag, tuple):
+                cands = []  # a library object: never one of pewlib's classes
             if cands and not (builtin and (self.is_arr(recv) or is_cont)):
                 for key, fn in cands:
                     decs = decorators(fn)
@@ -941,7 +1324,19 @@ class Scope:
                 return Val([vo], [vr], False, False)
         return Val([self.selfvar], (), False, False)
 
+    def stringify(self, val: Val, out, stack):
+        """str(x) / repr(x) / format / f"{x}": runs the class's own __str__ / __repr__ / __format__ when x is known to be
+        an instance of a pewlib class"""
+        if not (isinstance(val.tag, tuple) and val.tag[0] == "cls"):
+            return  # values of unknown class: not followed (see the trusted list of harness/c19.py)
+        for dunder in ("__str__", "__repr__", "__format__"):
+            for key, fn in self.tr.prog.overrides(val.tag[1], dunder):
+                self.inline(key[0], fn, [val], {}, out, stack, cls_key=key, def_cls=key)
+
     def external(self, full, shown, args, kwargs, union, out, e):
+        if shown in ("str", "repr", "format", "print") and shown == full:
+            for a in args:
+                self.stringify(a, out, stack=self._stack)
         cands = {full, shown}
         for c in list(cands):
             if c.startswith("numpy."):
@@ -954,6 +1349,9 @@ class Scope:
                     if i < len(args):
                         self.write(out, args[i])
                 return FRESH
+        for c in cands:
+            if c in TAGGED_FRESH_FUNCS:
+                return Val(tag=TAGGED_FRESH_FUNCS[c])
         if cands & FRESH_FUNCS:
             return FRESH
         if cands & CONTAINER_FUNCS:
@@ -996,7 +1394,7 @@ class Scope:
                 u = u | a
             if u.all() or u.unknown:
                 self.bind1(out, sr, u.all() | {sr}, u.unknown)
-        return selfval
+        return Val([so], [sr], False, False, ("cls", cls_key))
 
     def inline(self, mod, fn, args, kwargs, out, stack, cls_key=None, def_cls=None, closure=None, pairs=None):
         key = (mod, fn.name, def_cls or cls_key, fn.lineno)
@@ -1009,7 +1407,10 @@ class Scope:
         if closure is not None:  # free variables of a nested function are the enclosing scope's
             sc.vars = dict(closure.vars)
             sc.localfuncs = dict(closure.localfuncs)
+            sc.funcvals = dict(closure.funcvals)
             sc.selfvar = closure.selfvar
+        for k, v in self.tr.func_locals(mod, fn).items():
+            sc.funcvals[k] = v
         sc.def_cls = def_cls or cls_key
         sc.res = (self.tr.new(), self.tr.new())
         out.append(["bind", sc.res[0], ["fresh"]])
@@ -1037,12 +1438,15 @@ class Scope:
         shared = {}
         if pairs is not None:
             ap, kp = pairs
-            for i, pr in enumerate(ap):
-                if pr is not None and i < len(positional) and positional[i] not in rebinds:
-                    shared[positional[i]] = pr
-            for k, pr in kp.items():
-                if pr is not None and (k in positional or k in kwonly) and k not in rebinds:
-                    shared[k] = pr
+            named = [(positional[i], pr) for i, pr in enumerate(ap) if pr is not None and i < len(positional)]
+            named += [(k, pr) for k, pr in kp.items() if pr is not None and (k in positional or k in kwonly)]
+            for pname, pr in named:
+                if pname in rebinds:
+                    continue
+                if pr[0] == "fn":
+                    sc.funcvals[pname] = pr[1]  # the parameter IS one of these pewlib functions
+                else:
+                    shared[pname] = pr
         pairs = {}
         for name, ann in params:
             pairs[name] = shared.get(name) or (self.tr.new(), self.tr.new())
@@ -1052,7 +1456,7 @@ class Scope:
                 continue
             if name in bound:
                 val = bound[name]
-                val = Val(val.own, val.reach, val.unknown, self.is_arr(val))
+                val = Val(val.own, val.reach, val.unknown, self.is_arr(val), val.tag)
                 sc.bind(out, pairs[name], val)
             elif (a.vararg and name == a.vararg.arg) or (a.kwarg and name == a.kwarg.arg):
                 sc.bind(out, pairs[name], extra.container())
@@ -1068,12 +1472,17 @@ class Scope:
             sc.vars[name] = pairs[name]
             if ann is not None and is_container_annotation(ann):
                 sc.cont.add(pairs[name][0])
+            if ann is not None and is_xml_annotation(ann):
+                sc.set_tag(pairs[name][0], "xml")
+            if annotation_tag(self.tr.prog, mod, ann) and sc.tag_of(pairs[name][0]) is None:
+                sc.set_tag(pairs[name][0], annotation_tag(self.tr.prog, mod, ann))
         sc.stable = {n for n, _ in params} - rebinds
         if is_method:
             sc.selfvar = sc.vars[positional[0]][0]
             self.tr.init_fields(out, def_cls or cls_key, sc.vars[positional[0]], fresh=False)
         sc.block(fn.body, out, stack + [key])
-        return Val([sc.res[0]], [sc.res[1]], False, sc.res_arr)
+        rtag = None if sc.res_arr or fn.name == "__init__" else annotation_tag(self.tr.prog, mod, fn.returns)
+        return Val([sc.res[0]], [sc.res[1]], False, sc.res_arr, rtag)
 
 
 def walk_no_nested_loops(stmts):
@@ -1092,6 +1501,9 @@ INVENTORY_MODULES = [
     "pewlib.process.calc", "pewlib.process.colocal", "pewlib.process.filters", "pewlib.process.register",
     "pewlib.process.convolve", "pewlib.process.threshold", "pewlib.calibration", "pewlib.laser", "pewlib.srr.srr",
     "pewlib.io.laser", "pewlib.io.npz", "pewlib.io.textimage", "pewlib.io.vtk", "pewlib.config", "pewlib.srr.config",
+    # the remaining processing and I/O modules of the property's quantifier
+    "pewlib.io.agilent", "pewlib.io.csv", "pewlib.io.thermo", "pewlib.io.imzml", "pewlib.io.perkinelmer",
+    "pewlib.process.peakfinding",
 ]
 
 
